@@ -70,6 +70,7 @@ func cmdVerify(args []string) {
 		re = regexp.MustCompile(*fnre)
 	}
 	r := l.newRunner()
+	r.curProp = *prop
 	var all []*Oblig
 	var results []*FnResult
 	for _, sp := range l.selectSpecs(*prop, re) {
@@ -254,6 +255,18 @@ func aggregate(obs []*Oblig) map[string]*Agg {
 		insts         []*Oblig
 	}
 	totals := map[string]*tot{}
+	// every verified function has a lock-discipline summary, also when it has no lockset obligation at all
+	// (all accesses under their locks): an unguarded access ADDED by a change is a new obligation name, and
+	// only the summary -- part of the baseline -- turns it into a violation
+	for _, a := range out {
+		if len(a.Insts) == 0 || a.Insts[0].Spec == nil || a.Kind != "reach" || !strings.HasSuffix(a.Name, "#reach[entry]") {
+			continue
+		}
+		fn := a.Insts[0].Fn + "#lockset"
+		if totals[fn] == nil {
+			totals[fn] = &tot{status: "discharged", proto: a.Insts[0]}
+		}
+	}
 	for _, a := range out {
 		if len(a.Insts) == 0 || a.Insts[0].Spec == nil {
 			continue
